@@ -43,6 +43,7 @@ type Outcome struct {
 	Probes       map[string]int64 `json:",omitempty"`
 	Cases        int64            `json:",omitempty"` // fault-enumeration engines: cases evaluated
 	DistinctCases int64           `json:",omitempty"`
+	CaseClasses  []string         `json:",omitempty"` // distinct case classes of this world (unioned by the driver)
 	Known        []string         `json:",omitempty"`
 	Sample       interface{}      `json:",omitempty"`
 	Tapes        [simrt.NumStreams][]int32 `json:"-"`
